@@ -12,6 +12,7 @@ CONSTANTS
   CkOks = {TRUE}
   Rfus = {0}
   MsgKinds = {"a"}
+  Cards = {100, 320, 211}
   WithCut = TRUE
   WithFormat = TRUE
 CHECK_DEADLOCK FALSE
